@@ -870,10 +870,13 @@ def explore_parallel(harness, workers=None, seed=0, solver_timeout_ms=120000, ti
             if stop and not outstanding:
                 break
             try:
-                msg = results.get(timeout=5.0)
+                msg = results.get(timeout=2.0)
             except queue.Empty:
                 if not any(p.is_alive() for p in procs):
                     fatal = "all workers died"
+                    break
+                if time_budget is not None and time.time() - t0 > time_budget:
+                    totals.truncated = True
                     break
                 continue
             if msg[0] == "fatal":
@@ -884,7 +887,11 @@ def explore_parallel(harness, workers=None, seed=0, solver_timeout_ms=120000, ti
             totals.merge(t)
             pending.extend(rest)
             if time_budget is not None and time.time() - t0 > time_budget:
+                # budget exhausted: do not wait for the chunks still in flight (their paths are simply not counted)
                 stop = True
+                if pending or outstanding:
+                    totals.truncated = True
+                break
             if max_paths is not None and totals.paths >= max_paths:
                 stop = True
             if stop_on_first_violation and totals.violations:
